@@ -515,6 +515,22 @@ func byteSplitScripts(each func(sc script)) {
 	}
 }
 
+// ownership: every sequence of up to n complete control sequences (every dispatch path that
+// hands storage to the consumer), consumer retaining or handing back late
+var units = []string{"x", "\x1b[!p", "\x1b[?u", "\x1b[>1u", "\x1b[1;2A", "\x1b[ q", "\x1b[1 q", "\x1b(B", "\x1b#3", "\x1bP$q\x1b\\",
+	"\x1bP1$r\x1b\\", "\x1b]0;t\x07", "\x1b[1:2m", "\x1bOA", "\x1b[A"}
+
+func ownershipScripts(n int, each func(sc script)) {
+	for _, s := range stringsUpTo(n, units) {
+		if s == "" {
+			continue
+		}
+		for _, mode := range []int{1, 2} {
+			each(script{Chunks: []chunk{{s, short}}, End: endEOF, Retain: mode == 1, Delayed: mode == 2})
+		}
+	}
+}
+
 // depth: scripts explored with preemptions
 func depthScripts(each func(sc script)) {
 	bodies := [][]chunk{
@@ -558,7 +574,7 @@ func depthScripts(each func(sc script)) {
 func exploreScript(sc script, bound int, budget int64) {
 	lists, outside := allowed(&sc)
 	var outcomes = map[string]bool{}
-	n, capped := vsched.Explore(bound, budget, func(prefix []int) *vsched.Result {
+	n, capped := vsched.Explore(bound, budget, 0, 1, func(prefix []int) *vsched.Result {
 		res, o := execute(&sc, prefix)
 		res.Log = nil
 		// stash the outcome for visit
@@ -569,13 +585,19 @@ func exploreScript(sc script, bound int, budget int64) {
 		r.Count("points", int64(len(res.Trace)))
 		outcomes[strings.Join(o.items, "|")] = true
 		if sig, what := check(&sc, lists, outside, res, o); sig != "" {
-			var tr []string
-			for _, p := range res.Trace {
-				tr = append(tr, p.Desc)
-			}
 			var sched []int
 			for _, p := range res.Trace {
 				sched = append(sched, p.Chosen)
+			}
+			vsched.Describe = true
+			res2, o2 := execute(&sc, sched)
+			vsched.Describe = false
+			if sig2, _ := check(&sc, lists, outside, res2, o2); sig2 != sig {
+				r.Fault("replaying a violating schedule gave %q instead of %q (%s)", sig2, sig, sc)
+			}
+			var tr []string
+			for _, p := range res2.Trace {
+				tr = append(tr, p.Desc)
 			}
 			r.Violation(sig, len(sched)+len(sc.String()), detail{Script: sc.String(), ScriptV: sc, Schedule: sched, Trace: tr, Got: o.items, Allowed: lists, What: what})
 		}
@@ -599,6 +621,7 @@ func main() {
 	if r.Replay != "" {
 		var d detail
 		r.LoadReplay(&d)
+		vsched.Describe = true
 		res, o := execute(&d.ScriptV, d.Schedule)
 		lists, outside := allowed(&d.ScriptV)
 		fmt.Println("script:", d.ScriptV)
@@ -632,6 +655,7 @@ func main() {
 		case "breadth":
 			breadthScripts(breadthN, each(0, 0))
 			byteSplitScripts(each(1, 0))
+			ownershipScripts(r.Pick(3, 4), each(1, 0))
 		case "depth":
 			depthScripts(each(depthBound, int64(r.Pick(400000, 4000000))))
 		}
@@ -642,7 +666,7 @@ func main() {
 	ex := r.Get("executions")
 	r.Finish(explore.Coverage{
 		States: -1, Transitions: r.Get("points"), Traces: ex, Evaluations: ex,
-		Rule: fmt.Sprintf("stateless exploration of thread schedules of the real ansi.Parser under the controlled scheduler (scheduling points: every channel operation, select, close, mutex operation, thread start, timer firing, reader wait). Breadth: every string of up to %d symbols over a 12-symbol alphabet, as one chunk and cut in two at every position with short / boundary / long arrival gaps, ending in EOF or a read error, all schedules without preemption (non-preemptive switches are free); byte-level chunkings of multi-byte input with <=1 preemption. Depth: 14 input bodies x end kinds x consumer modes (hand back at once / retain everything / hand back one late) x Close from a second thread with a reader that returns afterwards, all schedules with <=%d deviations (preemption, or timer fired while a thread could run). Oracle per execution: no panic, no hang, no goroutine blocked at the end, exactly one EOF marker as last item, channel closed, WaitClose returns, retained sequences unchanged, item list equal to (prefix of, with Close) a list admitted by the reference automaton for the gap pattern. distinct = (script, bound) pairs", breadthN, depthBound),
+		Rule: fmt.Sprintf("stateless exploration of thread schedules of the real ansi.Parser under the controlled scheduler (scheduling points: every channel operation, select, close, mutex operation, thread start, timer firing, reader wait). Breadth: every string of up to %d symbols over a 12-symbol alphabet, as one chunk and cut in two at every position with short / boundary / long arrival gaps, ending in EOF or a read error, all schedules without preemption (non-preemptive switches are free); byte-level chunkings of multi-byte input with <=1 preemption; ownership: every sequence of up to %d complete control sequences out of 15 (each dispatch path that hands storage to the consumer) with a consumer that retains everything or hands back one late, <=1 preemption. Depth: 14 input bodies x end kinds x consumer modes (hand back at once / retain everything / hand back one late) x Close from a second thread with a reader that returns afterwards, all schedules with <=%d deviations (preemption, or timer fired while a thread could run). Oracle per execution: no panic, no hang, no goroutine blocked at the end, exactly one EOF marker as last item, channel closed, WaitClose returns, retained sequences unchanged, item list equal to (prefix of, with Close) a list admitted by the reference automaton for the gap pattern. distinct = (script, bound) pairs", breadthN, r.Pick(3, 4), depthBound),
 		Exhaustive: r.Get("scripts_capped") == 0,
 		Bounds: map[string]any{"breadth_symbols": breadthN, "deviation_bound": depthBound, "scripts": r.Get("scripts"), "scripts_capped": r.Get("scripts_capped"),
 			"scripts_with_several_outcomes": r.Get("scripts_with_several_outcomes"), "step_limit": 4000},
